@@ -152,7 +152,12 @@ class Ctx:
              (simulate and rc in (0,) and violated is None)
         zero = []
         if coverage:
-            for mm in re.finditer(r"<(\w+) line \d+, col \d+ to line \d+, col \d+ of module (\w+)>: (\d+):(\d+)", out):
+            # only the FINAL coverage report counts (interim reports have zeros for late actions)
+            covout = out
+            k = out.rfind("The coverage statistics at")
+            if k >= 0:
+                covout = out[k:]
+            for mm in re.finditer(r"<(\w+) line \d+, col \d+ to line \d+, col \d+ of module (\w+)>: (\d+):(\d+)", covout):
                 if int(mm.group(4)) == 0 and mm.group(1) not in allow_zero and mm.group(1) != "Init":
                     zero.append(mm.group(1))
         res = dict(ok=ok, states=gen, distinct=dist, out=out, violated=violated, rc=rc,
